@@ -1,4 +1,4 @@
-//go:build verif
+//go:build verif && !verif_nohook_bech32
 
 package bech32
 
